@@ -202,6 +202,7 @@ func runC02(c *Ctx) {
 	c.compareBatch(cases)
 	c.overlapMergeProbe("C02")
 	c.c02ColAttrs()
+	c.c02ItemsAcrossSaves()
 	nst := 40
 	if c.Thorough() {
 		nst = 1500
@@ -346,6 +347,78 @@ func (c *Ctx) c02ColAttrs() {
 			if len(c.R.Failures) >= 3 {
 				return
 			}
+		}
+	}
+}
+
+// items of every kind (comments, validations, conditional formats, tables, hyperlinks, pictures, form controls, scoped
+// names) added one by one with a save after each addition, against a twin that receives the same additions without
+// any save: the getters of the two workbooks agree after every step, and so do the workbooks reopened from their
+// final packages; one item is then deleted on both and the comparison repeated
+func (c *Ctx) c02ItemsAcrossSaves() {
+	// (a reference sequence may come back as an equivalent list of ranges in another order: D.3)
+	norm := func(l []string) string {
+		var out []string
+		for _, x := range l {
+			p := strings.Fields(x)
+			sort.Strings(p)
+			out = append(out, strings.Join(p, " "))
+		}
+		sort.Strings(out)
+		return strings.Join(out, ",")
+	}
+	for _, kd := range c18kinds() {
+		for _, opened := range []bool{false, true} {
+			desc := map[string]interface{}{"kind": kd.name, "workbook_opened_from_a_package": opened}
+			c.guard("C02_no_panic", desc, func() {
+				mk := func() *excelize.File {
+					f := excelize.NewFile()
+					for r := 1; r <= 9; r++ {
+						f.SetSheetRow("Sheet1", fmt.Sprintf("A%d", r), &[]interface{}{"h", r, r, r, r, r, r, r})
+					}
+					if opened {
+						if g, err := reopen(f); err == nil {
+							f.Close()
+							return g
+						}
+					}
+					return f
+				}
+				a, b := mk(), mk()
+				defer a.Close()
+				defer b.Close()
+				c.Count("items-across-saves", true, fmt.Sprint(desc))
+				for k := 0; k < 3; k++ {
+					ea, eb := kd.add(a, "Sheet1", k), kd.add(b, "Sheet1", k)
+					if ea != nil || eb != nil {
+						return
+					}
+					if _, err := a.WriteToBuffer(); err != nil {
+						c.Fail("oracle", "C02_save_twice", desc, "save failed: "+err.Error(), "")
+						return
+					}
+					if sa, sb := norm(kd.show(a, "Sheet1")), norm(kd.show(b, "Sheet1")); sa != sb {
+						c.Fail("oracle", "C02_commutes", desc, fmt.Sprintf("after adding %s %d: the workbook saved after every addition shows [%s], its never-saved twin [%s]", kd.name, k+1, sa, sb), "")
+						return
+					}
+				}
+				_ = kd.del(a, "Sheet1", 1)
+				_ = kd.del(b, "Sheet1", 1)
+				ra, e1 := reopen(a)
+				rb, e2 := reopen(b)
+				if e1 != nil || e2 != nil {
+					c.Fail("oracle", "C02_saved_content", desc, fmt.Sprintf("final save/open failed: %v / %v", e1, e2), "")
+					return
+				}
+				defer ra.Close()
+				defer rb.Close()
+				if sa, sb := norm(kd.show(ra, "Sheet1")), norm(kd.show(rb, "Sheet1")); sa != sb {
+					c.Fail("oracle", "C02_saved_content", desc, fmt.Sprintf("the final package of the workbook saved after every addition holds the %ss [%s], that of its never-saved twin [%s]", kd.name, sa, sb), "")
+				}
+				if sa, sb := norm(kd.show(a, "Sheet1")), norm(kd.show(ra, "Sheet1")); sa != sb {
+					c.Fail("oracle", "C02_getters_pure", desc, fmt.Sprintf("the live workbook shows the %ss [%s], its saved package [%s]", kd.name, sa, sb), "")
+				}
+			})
 		}
 	}
 }
